@@ -17,6 +17,7 @@ EXPLANATION = (
     "children assignment/deletion write links only through parent assignments; W9 a value cached from the links (a private memo field filled in a navigation getter) is dropped directly next to every write of those links, with nothing that can run user code or raise in between; W8 every assert is guarded by "
     "config.ASSERTIONS and has a pure test. Exhaustive over the abstract traces (hooks may raise wherever called, loops "
     "unrolled 0..2). Not decided: the induction over all histories itself, and that no assertion can fire."
+    " Added in rounds 16-18: W10 the result of a generator method kept in a local is consumed once (not inside a loop, not twice); a NEW public method (absent at the pinned commit, unused by the package) that writes a link field directly gets no verdict."
 )
 ASSUMPTIONS = [
     "hooks and unknown callees may raise at their call site and nowhere else; user code does not write name-mangled link fields",
@@ -49,5 +50,8 @@ def run(ctx):
         res.append(("W7 writes inside parent assignment", n, probs))
     report(ctx, res)
     record_stats(ctx, mas)
+    if ctx.extra.get("undecided") and not ctx.new_findings():
+        from ..model import AnalysisError
+        raise AnalysisError("C01 " + "; ".join(ctx.extra["undecided"][:2]))
     ctx.floor("W2-W4 link-change pairs", 1000)
     ctx.floor("W5 attaches preceded by loop check", 500)
